@@ -5,7 +5,7 @@ cd /repo || exit 2
 if ! git apply --check "$P" 2>/dev/null; then echo "PATCH DOES NOT APPLY: $P"; git apply --check "$P"; exit 3; fi
 git apply "$P"
 trap 'git -C /repo checkout -- . ; echo "[reverted]"' EXIT
-cd /verif
+cd /verif; export VERIF_TARGET=${VERIF_TARGET:-/verif/target_seed} VERIF_OUT=${VERIF_OUT:-/tmp/vout}
 for id in "$@"; do
   echo "=== $id with $(basename $(dirname $P))/$(basename $P)"
   ./check "$id" --tier "${SEED_TIER:-quick}" 2>&1 | grep -E "^VIOLATION|^C[0-9]+ tier|signature|MACHINERY" | cut -c1-260 | head -${SEED_LINES:-12}
